@@ -88,7 +88,18 @@ async fn write_side<W: AsyncWrite + Unpin>(mut w: W, data: Vec<u8>, key: (u32, u
     let mut off = 0;
     while off < data.len() {
         let n = (1 + choose(sh.max_write)).min(data.len() - off);
-        match w.write(&data[off..off + n]).await {
+        // one write in four is vectored (2..3 slices over the same bytes): a muxer may take any prefix of them, once
+        let res = if n >= 2 && choose(4) == 0 {
+            let a = 1 + choose(n - 1);
+            let b = a + choose(n - a + 1);
+            let chunk = &data[off..off + n];
+            let slices = [std::io::IoSlice::new(&chunk[..a]), std::io::IoSlice::new(&chunk[a..b]), std::io::IoSlice::new(&chunk[b..])];
+            probe("vectored_write");
+            w.write_vectored(&slices).await
+        } else {
+            w.write(&data[off..off + n]).await
+        };
+        match res {
             Ok(0) => {
                 sh.recs.borrow_mut().entry(key).or_default().write_err = Some("WriteZero".into());
                 return w;
